@@ -4,7 +4,7 @@ from __future__ import annotations
 
 import ast
 
-from engine.cfg import CFG, normalise_compare, atoms, int_bound_gt, int_bound_lt
+from engine.cfg import CFG, normalise_compare, atoms, int_bound_gt, int_bound_lt, A
 from engine.model import src, stmt_key, dotted, AnalysisError, walk_no_nested
 from engine import pat
 from engine.util import own_nodes, calls_with_nodes, where
@@ -14,6 +14,7 @@ RULES = {
     "R-01.2": "_validate_labels raises LabelTooLong exactly for len(label) >= 64 and NameTooLong exactly for sum(len+1) >= 256",
     "R-01.3": "wire decoding: every seek target is strictly below every earlier pointer and the name's start; literal labels are < 64 octets; other label types raise; the loop consumes input on every iteration",
     "R-01.4": "compression table: offsets stored are <= 0x3FFF and taken before the label is written, keyed by the same suffix that is looked up; the root is never inserted; pointers are 0xC000 + stored offset",
+    "R-01.9": "Name.to_wire derelativizes in two arms (bytes returned, file written); each arm that appends the origin's labels bounds the result by 255 octets: the file arm builds Name(labels) (validated), the bytes arm raises NameTooLong when len(out) > 255",
     "R-01.8": "relativization and derelativization against an origin keep every other label: Name.relativize strips exactly len(origin) labels (C06 R-06.4 relativize/choose and R-06.6 negative-zero slices adopted) - the text round trip under an origin rests on it",
     "R-01.7": "text emission and parsing decide relativity on the right object: Name.to_styled_text reads only the name produced by choose_relativity (never `self` again), and from_text / from_unicode decide whether to append the origin from the parsed labels (a trailing empty label), not from the raw text",
     "R-01.5": "every octet some reader gives meaning to is escaped by the writer (reader-special is a subset of writer-escaped); \\DDD is written and read with exactly 3 digits",
@@ -291,6 +292,22 @@ def run(model, rep, tier):
                   f"the decision to append the origin is `{src(ext[0].test)[:70]}`: it must depend on the parsed labels only (an escaped final dot `\\.` in the text is not the root label)", stmt="origin-append")
     rep.assume("IDNA codecs (idna package / encodings.idna) are outside the analysed program")
     rep.share(model, "C06", {"R-06.4", "R-06.6"}, "R-01.8", "to_text(origin=..., relativize=True) and Tokenizer.get_name relativize through Name.relativize / choose_relativity", only=lambda o: o.rule == "R-06.6" or o.stmt in ("relativize", "choose"))
+    # ---------------------------------------------------------------- R-01.9
+    tw9 = model.func("dns.name.Name.to_wire")
+    arm = [n for n in ast.walk(tw9.node) if isinstance(n, ast.If) and any(a[0] == "file" and a[1] == "is" and a[2] == "None" for a in atoms(normalise_compare(n.test)))]
+    if len(arm) != 1:
+        rep.blind("R-01.9", tw9.qualname, where(tw9, tw9.node), "the `file is None` arm was not found", stmt="bytes-arm-bound")
+    else:
+        appends = [l_ for l_ in ast.walk(arm[0]) if isinstance(l_, ast.For) and src(l_.iter) == "origin.labels"]
+        guards = [g for g in ast.walk(arm[0]) if isinstance(g, ast.If) and any(isinstance(b, ast.Raise) and "NameTooLong" in src(b) for b in g.body)
+                  and any(a == A("len(out)", ">", "255") for a in atoms(normalise_compare(g.test)))]
+        okk = bool(appends) and bool(guards) and all(g.lineno > l_.lineno for g in guards for l_ in appends)
+        rep.check(okk or not appends, "R-01.9", tw9.qualname, where(tw9, appends[0] if appends else arm[0]), "the bytes arm refuses a derelativized encoding above 255 octets",
+                  "the arm that returns bytes appends the origin's labels and returns without `if len(out) > 255: raise NameTooLong`: a relative name plus origin longer than 255 octets is encoded "
+                  "(to_wire(origin=...), to_digestable(origin)) where the file-writing arm raises NameTooLong", stmt="bytes-arm-bound")
+        farm = [c for c in ast.walk(tw9.node) if isinstance(c, ast.Call) and src(c.func) == "Name" and c not in list(ast.walk(arm[0]))]
+        rep.check(bool(farm), "R-01.9", tw9.qualname, where(tw9, tw9.node), "the file arm constructs Name(labels[i:]) - validated - before writing anything",
+                  "the file arm no longer constructs a (validated) Name from the combined labels", stmt="file-arm-bound")
     rep.meta["explanation"] = (
         "Must-pass-through and who-may-write rules for the validation gate, normalised-bound rules for the 63/255 limits and the compression offset, a well-founded-measure argument for "
         "wire decoding (pointer strictly decreasing, loop consumes), and set comparison between the octets readers treat specially and the octets the writer escapes (both folded from the source). "
@@ -298,6 +315,8 @@ def run(model, rep, tier):
 
 
 WITNESSES = [
+    {"id": "c01-bytes-arm-unbounded", "rule": "R-01.9", "file": "dns/name.py", "expect": "fires",
+     "old": "                if len(out) > 255:\n                    raise NameTooLong\n", "new": ""},
     {"id": "c01-styled-text-tests-self", "rule": "R-01.7", "file": "dns/name.py", "expect": "fires",
      "old": "        if style.omit_final_dot and name.is_absolute():", "new": "        if style.omit_final_dot and self.is_absolute():"},
     {"id": "c01-origin-append-from-raw-text", "rule": "R-01.7", "file": "dns/name.py", "expect": "fires",
